@@ -17,14 +17,17 @@ A history is {"init": [[pathId, contentId]...], "excl": k, "ops": [op...]}; an o
   ["D"] remove the cache directory   ["M"] remove the marker files
   faults whose abstract effect is computed by the abstraction function `abstract_cache`:
   ["trunc",n] keep n bytes  ["bytes",text] put latin-1 text there  ["jdel",path] remove a key
-  ["jset",path,value] replace a value in the cache document
+  ["jset",path,value] replace a value in the cache document   ["jraw",path,text] the same with a value given
+        as JSON text (1e400, NaN, Infinity, -0: literals json.dumps does not write)
   operations that are other ways of doing a modelled operation (same model words):
   ["wb",p,c,k] write with the modification time set back 10^k seconds (cp -p, tar x, rsync -t) = w
   ["ln",p,c] the path becomes a symbolic link to an OLD file with content c (re-pointing a link) = w
   ["R",a,b] directory DIRS[a] is renamed over DIRS[b] (rm -r b; mv a b) = d for every file of b, r for
         every file of a (the files keep inode, mtime and ctime)
   operations the model does not see (no words): ["cfg",k] Configuration as the CLI sets it, bit 0
-        verbose (-v), bit 1 repository (configure_github_repository)   ["xf",name,kind] an extra file
+        verbose (-v), bit 1 repository (configure_github_repository)   ["ent",k] the observation point of the following scans (0
+        scan_command in this process, 1 the CLI entry function `codelimit.__main__.scan` in a forked child, 2
+        `python -m codelimit scan` in a fresh interpreter; a history may carry "entry": k)   ["xf",name,kind] an extra file
         (lock / temp / backup name) in the cache directory   ["cold",k,sign] every file of the cache
         directory gets an mtime 10^k seconds in the past (sign 0) / future (sign 1)
   ["cmv"] the cache directory is renamed away (= D; the renamed directory stays in the tree)
@@ -38,7 +41,18 @@ A history is {"init": [[pathId, contentId]...], "excl": k, "ops": [op...]}; an o
         cache directory the model has no word for (one marker file only) makes the rest of the
         history oracle-only (`oracle_only`, counted in the evidence).  A child that is not stopped
         counts as an ordinary scan.  The scan that was stopped is not judged, the later ones are.
-  A history may carry "cfg": k, the configuration it starts in.
+  A history may carry "cfg": k, the configuration it starts in, and "entry": k, the observation point (see "ent").
+
+After every scan the direct oracles are evaluated (`judge_scan`): the scan completes; the report equals the
+from-scratch scan of a copy of the tree; the document left behind equals, FIELD BY FIELD, the document that
+from-scratch scan writes (`full_shape` / `shape_diff`: same keys at every level, same JSON types, same values,
+identifier and time stamp of the writer's shape); the cache is usable; files are reused only when the cache on
+disk, parsed independently, has the current version and an entry for that path with the md5 of the current bytes.
+Whether a history is outside the property because a forged current-version document was put in place is decided
+when a scan is about to read the cache file, not when the fault is made (two faults in a row).
+
+A second kind of history ({"named": 1, ...}, class NamedWorld below) works on trees with ARBITRARY file names and is
+judged by these oracles alone, without the model.
 """
 import contextlib
 import hashlib
@@ -190,14 +204,31 @@ def quiet():
         C.print, L.refresh, L.start, L.stop = saved
 
 
-def real_scan(root, excl_k, cfg=0):
+ENTRIES = 3     # 0 scan_command in this process, 1 the CLI entry function in a forked child, 2 `codelimit scan` in a fresh process
+
+
+def _patterns(excl):
+    return list(EXCL[excl]) if isinstance(excl, int) else list(excl)
+
+
+def real_scan(root, excl_k, cfg=0, entry=0):
     """-> (exception text or None, analysed relative paths); cfg: Configuration as `codelimit scan`
     sets it up: bit 0 = -v / `verbose: true` (Configuration.verbose and the root logger at INFO, as
-    setup_logging does), bit 1 = a GitHub checkout (Configuration.repository)"""
+    setup_logging does), bit 1 = a GitHub checkout (Configuration.repository).  excl_k: an index into
+    EXCL or a list of patterns.  entry: the observation point - 0 `scan_command(root)` in this process,
+    1 the function typer calls for `codelimit scan` (`codelimit.__main__.scan(path, exclude, verbose)`:
+    Configuration.load, setup_logging, configure_github_repository, whatever else the command line layer
+    does, then scan_command) in a forked child, 2 the typer object itself in a fresh interpreter
+    (`python -m codelimit scan [-v] root`, exclusions in <root>/.codelimit.yml; see cache_cli_worker.py).  The repository of
+    entries 1 and 2 is what the command finds out itself (none: the trees are no git checkouts)."""
+    if entry == 1:
+        return cli_scan_fork(root, _patterns(excl_k), bool(cfg & 1))
+    if entry == 2:
+        return cli_scan_process(root, _patterns(excl_k), bool(cfg & 1))
     import logging
     m = cl()
     C = m["Configuration"]
-    C.exclude = list(EXCL[excl_k])
+    C.exclude = _patterns(excl_k)
     C.verbose = bool(cfg & 1)
     C.repository = m["GithubRepository"]("owner", "name", "main") if cfg & 2 else None
     root_logger = logging.getLogger()
@@ -219,6 +250,101 @@ def real_scan(root, excl_k, cfg=0):
         C.repository = None
         root_logger.setLevel(level)
     return err, list(LOG)
+
+
+def _in_child(fn):
+    """fn() in a forked child -> its (JSON) result, or None when the child died without an answer"""
+    r, w = os.pipe()
+    pid = os.fork()
+    if pid == 0:
+        code = 0
+        try:
+            os.close(r)
+            os.write(w, json.dumps(fn()).encode())
+        except BaseException:  # noqa: BLE001
+            code = 3
+        finally:
+            os._exit(code)
+    os.close(w)
+    data = b""
+    while True:
+        chunk = os.read(r, 65536)
+        if not chunk:
+            break
+        data += chunk
+    os.close(r)
+    os.waitpid(pid, 0)
+    return json.loads(data.decode()) if data else None
+
+
+def _exit_text(e):
+    """None for an orderly exit with status 0, a text otherwise"""
+    code = getattr(e, "exit_code", getattr(e, "code", None))
+    if isinstance(e, SystemExit) or hasattr(e, "exit_code"):
+        return None if code in (0, None) else "exit status %s" % (code,)
+    return "%s: %s" % (type(e).__name__, str(e)[:200])
+
+
+def cli_scan_fork(root, patterns, verbose):
+    """entry 1: `codelimit.__main__.scan` - the function behind `codelimit scan` - in a forked child (the
+    command line layer changes Configuration, logging handlers, ... of its process)"""
+    m = cl()
+
+    def child():
+        import codelimit.__main__ as em
+        C = m["Configuration"]
+        C.exclude, C.verbose, C.repository = [], False, None
+        for v in ("GITHUB_REF", "GITHUB_HEAD_REF"):
+            os.environ.pop(v, None)
+        del LOG[:]
+        err = None
+        try:
+            with quiet():
+                em.scan(m["Path"](root), list(patterns) or None, verbose)
+        except BaseException as e:  # noqa: BLE001
+            err = _exit_text(e)
+        return [err, list(LOG)]
+    out = _in_child(child)
+    if out is None:
+        return "the process of the scan died", []
+    return out[0], out[1]
+
+
+def cli_scan_process(root, patterns, verbose):
+    """entry 2: a fresh interpreter runs the module `codelimit` as a program (cache_cli_worker.py)"""
+    import subprocess
+    import sys
+    # exclusions go through <root>/.codelimit.yml, which only the command line layer reads (with the typer / click
+    # of this sandbox every `--exclude` ends in a TypeError of typer's usage formatter); removed after the scan
+    args = ["scan"] + (["-v"] if verbose else []) + [root]
+    yml = os.path.join(root, ".codelimit.yml")
+    if patterns:
+        with open(yml, "w") as f:
+            f.write("exclude: %s\n" % json.dumps(list(patterns)))
+    fd, res = tempfile.mkstemp(prefix="clcli_", suffix=".json")
+    os.close(fd)
+    env = dict(os.environ, VERIF_REPO=common.REPO, CACHE_CLI_RESULT=res, COLUMNS="200")
+    for v in ("GITHUB_REF", "GITHUB_HEAD_REF"):
+        env.pop(v, None)
+    worker = os.path.join(os.path.dirname(os.path.abspath(__file__)), "cache_cli_worker.py")
+    try:
+        p = subprocess.run([sys.executable, worker] + args, env=env, stdout=subprocess.DEVNULL, stderr=subprocess.PIPE,
+                           cwd=tempfile.gettempdir(), timeout=300)
+        try:
+            out = json.load(open(res))
+        except (OSError, ValueError):
+            out = None
+    except subprocess.TimeoutExpired:
+        return "the process of the scan did not finish within 300 s", []
+    finally:
+        with contextlib.suppress(OSError):
+            os.unlink(res)
+        if patterns:
+            with contextlib.suppress(OSError):
+                os.unlink(yml)
+    if out is None:
+        return "the process of the scan ended with status %s: %s" % (p.returncode, p.stderr.decode("utf-8", "replace")[-200:]), []
+    return out["error"], out["analysed"]
 
 
 _MUTATING = ("os.mkdir", "os.remove", "os.rename", "os.rmdir", "os.truncate", "os.link", "os.symlink",
@@ -313,7 +439,79 @@ def entry_data(e):
 
 
 _FRESH = {}
+_SHAPE = {}
 _PRE = {}
+
+# what a report document is allowed to differ in from the document a from-scratch scan of a copy of the tree
+# writes: identifier and time stamp (the property's own words) and the root (the copy lives elsewhere)
+MASKED = ("uuid", "timestamp")
+
+
+def jtype(v):
+    if v is None:
+        return "null"
+    if isinstance(v, bool):
+        return "bool"
+    if isinstance(v, (int, float)):
+        return "number"
+    if isinstance(v, str):
+        return "string"
+    return "array" if isinstance(v, list) else "object"
+
+
+def skeleton(v):
+    """the shape of a masked value: its JSON type and, for a string, its characters with every digit and lower
+    case hexadecimal letter replaced by 'h' (upper case: 'H'); two identifiers / time stamps the writer produces
+    have the same skeleton"""
+    if not isinstance(v, str):
+        return {"json type": jtype(v)}
+    return "shape:" + "".join("h" if ch in "0123456789abcdef" else "H" if ch in "ABCDEF" else ch for ch in v)
+
+
+def full_shape(doc):
+    """a whole report document for the field-by-field comparison: everything as it is, except the masked values
+    (their skeleton), the root (its JSON type) and the order of the entries of a folder"""
+    if not isinstance(doc, dict):
+        return doc
+    d = json.loads(json.dumps(doc))
+    for k in MASKED:
+        if k in d:
+            d[k] = skeleton(d[k])
+    if "root" in d:
+        d["root"] = {"json type": jtype(d["root"])}
+    try:
+        for v in d["codebase"]["tree"].values():
+            if all(isinstance(x, str) for x in v["entries"]):
+                v["entries"] = sorted(v["entries"])
+    except (KeyError, TypeError, AttributeError):
+        pass
+    return d
+
+
+def shape_diff(a, b, path="", out=None):
+    """where two JSON values differ (keys, JSON types, values; true is not 1, 1 is not 1.0) -> list of texts"""
+    out = [] if out is None else out
+    if len(out) >= 8:
+        return out
+    if isinstance(a, dict) and isinstance(b, dict):
+        for k in a:
+            if k not in b:
+                out.append("%s/%s: not in a from-scratch cache" % (path, k))
+        for k in b:
+            if k not in a:
+                out.append("%s/%s: missing" % (path, k))
+        for k in a:
+            if k in b:
+                shape_diff(a[k], b[k], "%s/%s" % (path, k), out)
+    elif isinstance(a, list) and isinstance(b, list):
+        if len(a) != len(b):
+            out.append("%s: %d elements, from scratch %d" % (path, len(a), len(b)))
+        else:
+            for i, (x, y) in enumerate(zip(a, b)):
+                shape_diff(x, y, "%s/%d" % (path, i), out)
+    elif type(a) is not type(b) or a != b:
+        out.append("%s: %s, from scratch %s" % (path, json.dumps(a)[:80], json.dumps(b)[:80]))
+    return out
 
 
 def fresh_report(files, excl_k, cfg=0):
@@ -333,10 +531,18 @@ def fresh_report(files, excl_k, cfg=0):
             if err:
                 _FRESH[key] = {"error": err}
             else:
-                _FRESH[key] = canon(json.load(open(cache_paths(d)[1])))
+                doc = json.load(open(cache_paths(d)[1]))
+                _FRESH[key] = canon(doc)
+                _SHAPE[key] = full_shape(doc)
         finally:
             shutil.rmtree(d, ignore_errors=True)
     return _FRESH[key]
+
+
+def fresh_shape(files, excl_k, cfg=0):
+    """the complete document of that from-scratch scan, masked (`full_shape`); None if it failed"""
+    fresh_report(files, excl_k, cfg)
+    return _SHAPE.get((tuple(sorted(files.items())), excl_k, cfg & 2))
 
 
 # old files with every content, outside every scanned tree: targets of symbolic links. Created once
@@ -518,6 +724,9 @@ def set_version(doc, v, cur):
         doc["version"] = "0.0.1"
 
 
+RAW_SENTINEL = "@@RAW-JSON-TEXT@@"
+
+
 def jget(doc, path):
     for k in path:
         doc = doc[k]
@@ -527,8 +736,9 @@ def jget(doc, path):
 # ------------------------------------------------------------------ the world
 
 class World:
-    def __init__(self, init, excl_k, cfg=0):
+    def __init__(self, init, excl_k, cfg=0, entry=0):
         self.cur = cl()["CUR"]
+        self.entry = entry
         self.root = tempfile.mkdtemp(prefix="clw_")
         self.files = {}
         self.excl = excl_k
@@ -598,8 +808,10 @@ class World:
         tags = [os.path.exists(os.path.join(d, n)) for n in ("CACHEDIR.TAG", ".gitignore")]
         return 2 if all(tags) else 1 if not any(tags) else 3
 
-    def _edit_doc(self, fn):
-        """apply fn to the parsed cache document; no effect when there is no parseable object"""
+    def _edit_doc(self, fn, raw=None):
+        """apply fn to the parsed cache document; no effect when there is no parseable object.  raw: JSON text
+        that takes the place of the value RAW_SENTINEL in the new document (literals that json.dumps does not
+        produce: 1e400, -0, NaN spelled out, ...)"""
         data = self.cache_bytes()
         if data is None:
             return False
@@ -613,7 +825,10 @@ class World:
             fn(doc)
         except (KeyError, TypeError, IndexError, AttributeError):
             return False
-        self.put_cache(json.dumps(doc, indent=1).encode())
+        text = json.dumps(doc, indent=1)
+        if raw is not None:
+            text = text.replace(json.dumps(RAW_SENTINEL), raw)
+        self.put_cache(text.encode())
         return True
 
     def abstract(self):
@@ -625,10 +840,10 @@ class World:
         cd = None
         if os.path.isdir(d):
             cd = {n: open(os.path.join(d, n), "rb").read() for n in os.listdir(d)}
-        return (dict(self.files), self.excl, cd, len(self.snaps), len(self.words), self.forged, self.cfg, self.oracle_only)
+        return (dict(self.files), self.excl, cd, len(self.snaps), len(self.words), self.forged, self.cfg, self.oracle_only, self.entry)
 
     def restore(self, snap):
-        files, excl, cd, nsn, nw, self.forged, self.cfg, self.oracle_only = snap
+        files, excl, cd, nsn, nw, self.forged, self.cfg, self.oracle_only, self.entry = snap
         for p in list(self.files):
             if files.get(p) != self.files[p]:
                 self._delete(p)
@@ -693,6 +908,9 @@ class World:
                         w += ["r", str(pa), str(pb)]
         elif k == "cfg":
             self.cfg = op[1] % CFGS
+            w = []
+        elif k == "ent":
+            self.entry = op[1] % ENTRIES
             w = []
         elif k == "xf":
             d, _ = cache_paths(self.root)
@@ -819,10 +1037,12 @@ class World:
                     self.contract_fails.append("cutting the cache file at byte %d of %d (%s) gives %s, expected %s" % (
                         op[1], len(data), "only whitespace removed" if ws else "non-whitespace removed",
                         after[:2], "the same document" if ws else "an unreadable file"))
-        elif k in ("bytes", "jdel", "jset"):
+        elif k in ("bytes", "jdel", "jset", "jraw"):
             if k == "bytes":
                 self.put_cache(op[1].encode("latin-1"))
                 done = True
+            elif k == "jraw":
+                done = self._edit_doc(lambda doc: jget(doc, op[1][:-1]).__setitem__(op[1][-1], RAW_SENTINEL), raw=op[2])
             elif k == "jdel":
                 done = self._edit_doc(lambda doc: jget(doc, op[1][:-1]).__delitem__(op[1][-1]))
             else:
@@ -833,11 +1053,13 @@ class World:
         else:
             raise ValueError("unknown op %r" % (op,))
         self.words += [str(x) for x in op] if w is None else w
-        if k in ("cj", "ca", "cr", "co", "fmt", "dup", "k", "trunc", "bytes", "jdel", "jset") and not self.forged:
-            self._forged_check()
         return None
 
     def _forged_check(self):
+        """called when a scan is about to READ the cache file: a forged document that is replaced before any scan
+        reads it (two faults in a row) does not take the history out of the property"""
+        if self.forged:
+            return
         a = self.abstract()
         if a[0] == "d" and a[1] == 1 and any(h >= ALIEN_H or e != pair(p, h) for p, h, e in a[2]):
             self.forged = True     # side condition Op.Allowed violated: outside the property
@@ -845,6 +1067,7 @@ class World:
     def _interrupted(self, mode, n):
         """["ks", mode, n]: what the stopped child left on disk becomes a fault of the model"""
         b0, ds0 = self.cache_bytes(), self.dir_state()
+        self._forged_check()
         status, err, analysed, _ = interrupted_scan(self.root, self.excl, self.cfg, mode, n)
         if status == "completed" or (status == "raised" and "File too large" not in err and "Errno 27" not in err):
             # not stopped (or failed for a reason of its own): an ordinary scan
@@ -872,14 +1095,19 @@ class World:
     def _scan(self, ran=None):
         if ran is None:
             pre_cache = self.cache_bytes()
-            err, analysed = real_scan(self.root, self.excl, self.cfg)
+            self._forged_check()
+            err, analysed = real_scan(self.root, self.excl, self.cfg, self.entry)
+            # the command line finds the repository out itself (none here): bit 1 has no effect there
+            cfg = self.cfg & 1 if self.entry else self.cfg
         else:
             pre_cache, err, analysed = ran
+            cfg = self.cfg
         self.words.append("s")
         post = self.cache_bytes()
         self.snaps.append(post)
         obs = {"raised": err, "analysed": analysed, "pre_cache": pre_cache, "post_cache": post,
-               "dir": self.dir_state(), "files": dict(self.files), "excl": self.excl, "cfg": self.cfg}
+               "dir": self.dir_state(), "files": dict(self.files), "excl": self.excl, "cfg": cfg,
+               "entry": self.entry if ran is None else 0}
         if obs["dir"] == 3:
             self.oracle_only = True
         return obs
@@ -891,8 +1119,8 @@ class World:
         return " ".join(hdr + self.words)
 
 
-def new_world(init, excl_k, cfg=0):
-    w = World(init, excl_k, cfg)
+def new_world(init, excl_k, cfg=0, entry=0):
+    w = World(init, excl_k, cfg, entry)
     w._excl0 = excl_k
     return w
 
@@ -950,6 +1178,19 @@ def check_scan(world, obs):
 
 
 def _check_scan(world, obs):
+    def md5_of(name):
+        if name not in PATHS or PATHS.index(name) not in obs["files"]:
+            return None
+        return MD5[obs["files"][PATHS.index(name)]]
+    fr = fresh_report(obs["files"], obs["excl"], obs.get("cfg", 0))
+    sh = fresh_shape(obs["files"], obs["excl"], obs.get("cfg", 0))
+    return judge_scan(world.cur, world.root, obs, fr, sh, md5_of)
+
+
+def judge_scan(cur, root, obs, fr, sh, md5_of):
+    """the oracles on one scan: obs = what was observed, fr / sh = the from-scratch report of a copy of the tree
+    (`canon`) and its complete document (`full_shape`), md5_of(name) = checksum of the current bytes of a file of
+    the tree (None: no such file)"""
     fails = []
     if obs["raised"]:
         return ["scan raised " + obs["raised"]]
@@ -961,17 +1202,26 @@ def _check_scan(world, obs):
         rep = canon(doc)
     except Exception as e:  # noqa: BLE001
         return ["the cache left behind is not a complete report document: %r" % (e,)]
-    fr = fresh_report(obs["files"], obs["excl"], obs.get("cfg", 0))
     if rep != fr:
         diff = [k for k in ("version", "repository", "totals", "tree", "files") if rep.get(k) != fr.get(k)]
+        a, b = rep.get("files"), fr.get("files")
+        if isinstance(a, dict) and isinstance(b, dict) and a != b:
+            # only the files whose entries differ
+            a, b = ({k: v for k, v in x.items() if k not in y or y[k] != v} for x, y in ((a, b), (b, a)))
         fails.append("report differs from the fresh scan in %s: %s vs fresh %s" % (
-            diff, json.dumps(rep.get("files"), sort_keys=True)[:600], json.dumps(fr.get("files"), sort_keys=True)[:600]))
-    if rep["version"] != world.cur:
+            diff, json.dumps(a, sort_keys=True)[:600], json.dumps(b, sort_keys=True)[:600]))
+    elif sh is not None:
+        # "a complete, valid cache": field by field what a from-scratch scan writes - the same keys at every
+        # level, the same JSON types, the same values; identifier and time stamp of the writer's shape
+        diffs = shape_diff(full_shape(doc), sh)
+        if diffs:
+            fails.append("the cache left behind differs field by field from the cache a from-scratch scan writes: " + "; ".join(diffs[:6]))
+    if rep["version"] != cur:
         fails.append("cache written with version %r" % (rep["version"],))
     # usable for the next scan (this is the function the next scan calls)
     m = cl()
     try:
-        usable = m["scanmod"]._read_cached_report(m["Path"](cache_paths(world.root)[1])) is not None
+        usable = m["scanmod"]._read_cached_report(m["Path"](cache_paths(root)[1])) is not None
     except Exception as e:  # noqa: BLE001
         usable = False
         fails.append("reading back the cache raises %r" % (e,))
@@ -991,11 +1241,11 @@ def _check_scan(world, obs):
         except Exception:  # noqa: BLE001
             pre_doc = None
         for n in reused:
-            if n not in PATHS or PATHS.index(n) not in obs["files"]:
+            cur_sum = md5_of(n)
+            if cur_sum is None:
                 fails.append("the report lists %s, which is not in the tree" % n)
                 continue
-            cur_sum = MD5[obs["files"][PATHS.index(n)]]
-            ok = (isinstance(pre_doc, dict) and pre_doc.get("version") == world.cur
+            ok = (isinstance(pre_doc, dict) and pre_doc.get("version") == cur
                   and isinstance(pre_doc.get("codebase"), dict) and isinstance(pre_doc["codebase"].get("files"), dict)
                   and isinstance(pre_doc["codebase"]["files"].get(n), dict)
                   and pre_doc["codebase"]["files"][n].get("checksum") == cur_sum)
@@ -1017,7 +1267,9 @@ def observe(w, obs, real, fails):
 
 def run_history(hist, want_model=True):
     """replays one history on a fresh world -> dict(request, real=[abstract obs], fails=[(scan idx, text)])"""
-    w = new_world([tuple(x) for x in hist["init"]], hist["excl"], hist.get("cfg", 0))
+    if hist.get("named"):
+        return run_named_history(hist)
+    w = new_world([tuple(x) for x in hist["init"]], hist["excl"], hist.get("cfg", 0), hist.get("entry", 0))
     real, fails = [], []
     try:
         for op in hist["ops"]:
@@ -1053,6 +1305,203 @@ def compare_with_model(rec, reply):
     return None
 
 
+# ------------------------------------------------------------------ trees of files with arbitrary names
+# The model speaks about numbered paths whose analysis depends on (path, content) only; the histories below are
+# judged by the direct oracles alone (report == from-scratch scan of a copy, field by field; reuse only of files
+# whose path and bytes the current-version cache knows).  They exist for what the numbered universe cannot say:
+# file names that choose the language by more than an ordinary suffix (gen/names.py: `*.h`, `*.hh`, `BUILD`, ...),
+# siblings of other languages that come and go next to a file that stays byte-identical, renames and copies that
+# keep the bytes across language extensions, canonically equivalent / awkward names, nested .gitignore files,
+# roots spelled through a symbolic link or `..`, and the three observation points (`ent`).
+#
+# A named history is {"named": 1, "files": [[rel, cid]...], "excl": [pattern...], "cfg": k, "entry": e, "ops": [...]}:
+#   ["w",rel,cid] write   ["wb",rel,cid,k] write, mtime 10^k s back   ["d",rel] delete   ["r",a,b] rename keeping the
+#   bytes   ["cp",a,b] copy the bytes (and times)   ["t",rel] touch   ["gi",dir,[line...]] write dir/.gitignore   ["e",[pattern...]] exclusions
+#   ["root",k] spelling of the root: 0 plain, 1 through a symbolic link, 2 through `other/..`   ["cfg",k]  ["ent",k]
+#   ["s"] scan
+
+NWORDS = ["f", "new", "delete", "class", "catch", "template", "type", "number", "string", "declare", "readonly",
+          "namespace", "async", "await", "print", "exec", "final", "var", "let", "of", "operator", "module"]
+_NW = {}
+
+
+def nwords():
+    """function names for the texts of named trees: identifiers of one supported language that are keywords of
+    another, plus the identifier-like string literals that are new in the source tree under check"""
+    if "w" not in _NW:
+        import re
+        from gen import srcdict
+        extra = [x for x in srcdict.words(novel_only=True) if re.fullmatch(r"[A-Za-z_][A-Za-z0-9_]{0,30}", x)]
+        _NW["w"] = NWORDS + [x for x in extra if x not in NWORDS][:20]
+    return _NW["w"]
+
+
+def ncontent(cid):
+    """bytes of content `cid` of a named tree: below NCONTENT the numbered contents, from 100 on a polyglot text
+    (Python, JavaScript / TypeScript, C family) with functions called nwords()[cid - 100]; every cid another text"""
+    if cid < 100:
+        return content(cid)
+    ws = nwords()
+    w = ws[(cid - 100) % len(ws)]
+    k = cid - 100
+    py = "def %s():\n" % w + "".join("    x%d = %d\n" % (i, i) for i in range(k % 3 + 1))
+    js = "function %s(a) {\n" % w + "".join("  a = %d;\n" % i for i in range(k % 2 + 1)) + "}\n"
+    c = "struct node *%s(int a) {\n" % w + "".join("  a = %d;\n" % i for i in range(k % 4 + 1)) + "  return 0;\n}\n"
+    c += "class Box%d {\n  int get(int a) {\n    try { a = 1; } catch (int e) { a = 2; }\n    return a;\n  }\n};\n" % k
+    return (py + "\n" + js + "\n" + c).encode()
+
+
+_NFRESH = {}
+
+
+def fresh_named(files, gi, excl, cfg=0):
+    """the oracle of the named trees: from-scratch scan (scan_command) of a copy made of regular files, created
+    in sorted order -> (canon, full_shape) or ({"error": text}, None)"""
+    cfg &= 2
+    key = (tuple(sorted(files.items())), tuple(sorted((d, tuple(l)) for d, l in gi.items())), tuple(excl), cfg)
+    if key not in _NFRESH:
+        d = tempfile.mkdtemp(prefix="clnfresh_")
+        try:
+            for rel, cid in sorted(files.items()):
+                fp = os.path.join(d, rel)
+                os.makedirs(os.path.dirname(fp), exist_ok=True)
+                with open(fp, "wb") as f:
+                    f.write(ncontent(cid))
+            for dr, lines in sorted(gi.items()):
+                os.makedirs(os.path.join(d, dr), exist_ok=True)
+                with open(os.path.join(d, dr, ".gitignore"), "w") as f:
+                    f.write("".join(x + "\n" for x in lines))
+            err, _ = real_scan(d, list(excl), cfg)
+            if err:
+                _NFRESH[key] = ({"error": err}, None)
+            else:
+                doc = json.load(open(cache_paths(d)[1]))
+                _NFRESH[key] = (canon(doc), full_shape(doc))
+        finally:
+            shutil.rmtree(d, ignore_errors=True)
+    return _NFRESH[key]
+
+
+class NamedWorld:
+    def __init__(self, files, excl=(), cfg=0, entry=0):
+        self.cur = cl()["CUR"]
+        self.base = tempfile.mkdtemp(prefix="clnw_")
+        self.root = os.path.join(self.base, "tree")
+        os.makedirs(self.root)
+        os.makedirs(os.path.join(self.base, "other"))
+        os.symlink("tree", os.path.join(self.base, "link"))
+        self.files, self.gi = {}, {}
+        self.excl, self.cfg, self.entry, self.spelling = list(excl), cfg, entry, 0
+        for rel, cid in files:
+            self.write(rel, cid)
+
+    def close(self):
+        shutil.rmtree(self.base, ignore_errors=True)
+
+    def spelled(self):
+        return [self.root, os.path.join(self.base, "link"), os.path.join(self.base, "other", "..", "tree")][self.spelling]
+
+    def fp(self, rel):
+        return os.path.join(self.root, rel)
+
+    def write(self, rel, cid):
+        fp = self.fp(rel)
+        os.makedirs(os.path.dirname(fp), exist_ok=True)
+        with open(fp, "wb") as f:
+            f.write(ncontent(cid))
+        self.files[rel] = cid
+
+    def apply(self, op):
+        k = op[0]
+        if k == "w":
+            self.write(op[1], op[2])
+        elif k == "wb":
+            self.write(op[1], op[2])
+            old = time.time() - 10 ** op[3]
+            os.utime(self.fp(op[1]), (old, old))
+        elif k == "d":
+            if op[1] in self.files:
+                os.unlink(self.fp(op[1]))
+                del self.files[op[1]]
+        elif k == "r":
+            a, b = op[1], op[2]
+            if a in self.files and a != b:
+                os.makedirs(os.path.dirname(self.fp(b)), exist_ok=True)
+                os.replace(self.fp(a), self.fp(b))
+                self.files[b] = self.files.pop(a)
+        elif k == "cp":
+            a, b = op[1], op[2]
+            if a in self.files and a != b:
+                os.makedirs(os.path.dirname(self.fp(b)), exist_ok=True)
+                shutil.copy2(self.fp(a), self.fp(b))          # cp -p: bytes and times
+                self.files[b] = self.files[a]
+        elif k == "t":
+            if op[1] in self.files:
+                st = os.stat(self.fp(op[1]))
+                os.utime(self.fp(op[1]), (st.st_atime + 100, st.st_mtime + 100))
+        elif k == "gi":
+            os.makedirs(self.fp(op[1]), exist_ok=True)
+            with open(os.path.join(self.fp(op[1]), ".gitignore"), "w") as f:
+                f.write("".join(x + "\n" for x in op[2]))
+            self.gi[op[1]] = list(op[2])
+        elif k == "e":
+            self.excl = list(op[1])
+        elif k == "root":
+            self.spelling = op[1] % 3
+        elif k == "cfg":
+            self.cfg = op[1] % CFGS
+        elif k == "ent":
+            self.entry = op[1] % ENTRIES
+        elif k == "s":
+            return self.scan()
+        else:
+            raise ValueError("unknown op %r" % (op,))
+        return None
+
+    def cache_bytes(self):
+        try:
+            with open(cache_paths(self.root)[1], "rb") as f:
+                return f.read()
+        except OSError:
+            return None
+
+    def scan(self):
+        pre_cache = self.cache_bytes()
+        err, analysed = real_scan(self.spelled(), self.excl, self.cfg, self.entry)
+        return {"raised": err, "analysed": analysed, "pre_cache": pre_cache, "post_cache": self.cache_bytes(),
+                "files": dict(self.files), "gi": {d: list(l) for d, l in self.gi.items()}, "excl": list(self.excl),
+                "cfg": self.cfg & 1 if self.entry else self.cfg, "entry": self.entry}
+
+
+def check_named_scan(world, obs):
+    try:
+        fr, sh = fresh_named(obs["files"], obs["gi"], obs["excl"], obs["cfg"])
+        return judge_scan(world.cur, world.root, obs, fr, sh,
+                          lambda n: md5(ncontent(obs["files"][n])) if n in obs["files"] else None)
+    except Exception as e:  # noqa: BLE001
+        return ["the outputs of the scan have an unexpected shape: %r" % (e,)]
+
+
+def run_named_history(hist):
+    w = NamedWorld([tuple(x) for x in hist["files"]], hist.get("excl", ()), hist.get("cfg", 0), hist.get("entry", 0))
+    real, fails = [], []
+    try:
+        for op in hist["ops"]:
+            obs = w.apply(op)
+            if obs is None:
+                continue
+            fails += [(len(real), f) for f in check_named_scan(w, obs)]
+            n = 0
+            try:
+                n = len(json.loads(obs["post_cache"].decode("utf-8"))["codebase"]["files"])
+            except Exception:  # noqa: BLE001
+                pass
+            real.append(("named", n, max(0, n - len(obs["analysed"])), len(obs["analysed"]), obs["entry"]))
+        return {"request": "", "real": real, "fails": fails, "final": None, "forged": False, "oracle_only": True, "named": True}
+    finally:
+        w.close()
+
+
 # ------------------------------------------------------------------ running many histories
 
 def run_variants(task):
@@ -1060,7 +1509,8 @@ def run_variants(task):
     variant starts from the state after the prefix (snapshot / restore)"""
     init, excl, prefix, variants = task[:4]
     cfg = task[4] if len(task) > 4 else 0
-    w = new_world([tuple(x) for x in init], excl, cfg)
+    entry = task[5] if len(task) > 5 else 0
+    w = new_world([tuple(x) for x in init], excl, cfg, entry)
     out = []
     try:
         base_real, base_fails = [], []
@@ -1073,7 +1523,8 @@ def run_variants(task):
             for op in var:
                 observe(w, w.apply(op), real, fails)
             fails += [(len(real), f) for f in w.contract_fails]
-            out.append({"input": {"init": [list(x) for x in init], "excl": excl, "cfg": cfg, "ops": list(prefix) + list(var)},
+            out.append({"input": dict({"init": [list(x) for x in init], "excl": excl, "cfg": cfg, "ops": list(prefix) + list(var)},
+                                      **({"entry": entry} if entry else {})),
                         "request": w.request(), "real": real, "fails": fails, "final": w.abstract(), "forged": w.forged,
                         "oracle_only": w.oracle_only})
             w.restore(snap)
@@ -1131,9 +1582,11 @@ def pool_map(fn, tasks, procs=16):
 
 def judge(records):
     """model replies for all records -> (disagreements, oracle failures)"""
-    replies = common.run_driver_sharded([r["request"] for r in records])
+    modelled = [r for r in records if not r.get("named")]
+    replies = iter(common.run_driver_sharded([r["request"] for r in modelled]) if modelled else [])
     dis, fails = [], []
-    for r, reply in zip(records, replies):
+    for r in records:
+        reply = None if r.get("named") else next(replies)
         if r.get("oracle_only"):
             # the disk went through a state the model has no word for (see op "ks"): oracles only
             for (i, f) in r["fails"]:
@@ -1162,19 +1615,57 @@ def history_problems(hist):
     return [d["impl"] for d in dis] + [f["observed"] for f in fails]
 
 
+def _scan_ops(ops):
+    return [i for i, op in enumerate(ops) if op[0] in ("s", "ks")]
+
+
 def shrink(hist, budget=60):
-    """greedy removal of operations while the history still shows a problem"""
-    ops = list(hist["ops"])
-    i = 0
-    while i < len(ops) and budget > 0:
-        cand = ops[:i] + ops[i + 1:]
-        budget -= 1
+    """a smaller history that still shows a problem: cut behind the first scan that shows one, drop initial files
+    (named histories), then remove blocks of operations (halves, quarters, ... single operations)"""
+    import re
+
+    def bad(h):
         try:
-            bad = bool(history_problems(dict(hist, ops=cand)))
+            return history_problems(h)
         except Exception:  # noqa: BLE001
-            bad = False
-        if bad:
+            return []
+    ops = list(hist["ops"])
+    left = [budget]
+
+    def still(h):
+        if left[0] <= 0:
+            return False
+        left[0] -= 1
+        return bool(bad(h))
+    probs = bad(hist)
+    left[0] -= 1
+    idx = [int(m.group(1)) for m in (re.match(r"scan (\d+):", p) for p in probs) if m]
+    scans = _scan_ops(ops)
+    if idx and min(idx) < len(scans) - 1:
+        cand = ops[:scans[min(idx)] + 1]
+        if still(dict(hist, ops=cand)):
             ops = cand
-        else:
-            i += 1
+    hist = dict(hist, ops=ops)
+    if hist.get("named"):
+        files = list(hist["files"])
+        i = 0
+        while i < len(files) and len(files) > 1:
+            cand = files[:i] + files[i + 1:]
+            if still(dict(hist, files=cand)):
+                files = cand
+            else:
+                i += 1
+        hist = dict(hist, files=files)
+    n = max(1, len(ops) // 2)
+    while left[0] > 0:
+        i = 0
+        while i < len(ops) and left[0] > 0:
+            cand = ops[:i] + ops[i + n:]
+            if cand and still(dict(hist, ops=cand)):
+                ops = cand
+            else:
+                i += n
+        if n == 1:
+            break
+        n = max(1, n // 2)
     return dict(hist, ops=ops)
